@@ -4,6 +4,7 @@ from .gen import Geo, draw_field_new, draw_mesh_spec, draw_region_spec, draw_rej
 from .geom import MeshM
 from .heap import HeapState
 from . import ops_geom  # noqa: F401  (registers ops)
+from . import ops_field  # noqa: F401  (F.call observation)
 from .ops_geom import field_rot_refused
 
 REAL = ["discretisedfield (all of it, from /repo working tree)", "numpy", "scipy", "h5py", "vtk", "pandas", "kernel tmpfs"]
@@ -145,6 +146,13 @@ class TransformProfile(HeapProfile):
             ms = rng.choice(meshes) if rng.random() < cfg["p_share"] or len(meshes) == 1 else meshes[-1]
             dts = (None, None, "float", "int") if cfg["int_dtype"] else (None, None, "float")
             return draw_field_new(rng, ms, out, st.h[ms].box.v, dtypes=dts)
+        if fields and rng.random() < 0.08:
+            # observation: sample the field at the centre / off-centre point of model cells,
+            # i.e. g(R+Q(p-R)) = Q f(p) through the library's own point lookup
+            from .profiles_field import draw_points
+
+            s = rng.choice(fields)
+            return {"op": "F.call", "on": s, "pts": draw_points(rng, st.h[s].box.v, rng.randint(1, 3)), "tuple": rng.random() < 0.3}
         cands = [s for s in st.h if st.h[s].kind in kinds]
         if not cands:
             cands = list(st.h)
